@@ -104,6 +104,9 @@ theorem recvEmp_wle {t : Topo} {s s' : State} {p e : Nat} {em : List (Dest × Ms
     · cases h
     split at h
     · cases h
+      exact eof _ (wle_systemError t hp) (by simp [systemError, shutdownNode, finishShutdown, baseShutdown, State.gone])
+    split at h
+    · cases h
       apply eof
       · apply quiet_syslog
         exact (WLe.of_eq (s := s) (s' := { s with downOpen := upd s.downOpen e false }) rfl rfl rfl).trans
@@ -160,6 +163,8 @@ theorem recvUp_quiet {t : Topo} {s s' : State} {n : Nat} {em : List (Dest × Msg
   split at h
   · split at h
     · cases h
+    split at h
+    · cases h; exact wle_systemError t hp
     · cases h
       have h0 : Quiet s { s with upOpen := upd s.upOpen n false } := WLe.of_eq rfl rfl rfl
       exact h0.trans (wle_shutdownNode t (by simpa [State.gone] using hp))
